@@ -14,7 +14,8 @@ open Selene.Scope.Core (Ans)
     targets), `...` of the main chunk excluded -/
 def counted (oc : Occ) : Bool := oc.kind != .target && !(oc.name == "..." && !oc.inFunction)
 
-def reads (o : Out) : List (Nat × Option Nat) := (o.occs.filter counted).map fun oc => (oc.tok, oc.binding.map (·.1))
+/-- a plain-name assignment target (or `function name`) that assigns a global: the name denotes no local there -/
+def assignsGlobal (oc : Occ) : Bool := oc.kind == .target && oc.binding.isNone
 
 set_option linter.unusedSectionVars false
 variable [Core.NameFilter]
@@ -25,12 +26,22 @@ variable [Core.NameFilter]
 def shadows (o : Out) : List (Nat × Option Nat) :=
   (o.decls.filter fun d => d.kind != .varargParam && Core.NameFilter.keep d.name).map fun d => (d.tok, d.visibleSameName.map (·.1))
 
-def readsOf (o : Out) : List Ans := (o.occs.filter counted).map fun oc => .read oc.tok (oc.binding.map (·.1))
+def reads (o : Out) : List (Nat × Option Nat) :=
+  (o.occs.filter fun oc => counted oc && Core.NameFilter.read oc.name).map fun oc => (oc.tok, oc.binding.map (·.1))
+
+/-- tokens of the assignment targets that assign a global -/
+def globalAssigns (o : Out) : List Nat :=
+  (o.occs.filter fun oc => assignsGlobal oc && Core.NameFilter.assign oc.name).map (·.tok)
+
+def readsOf (o : Out) : List Ans :=
+  (o.occs.filter fun oc => counted oc && Core.NameFilter.read oc.name).map fun oc => .read oc.tok (oc.binding.map (·.1))
+def assignsOf (o : Out) : List Ans :=
+  (o.occs.filter fun oc => assignsGlobal oc && Core.NameFilter.assign oc.name).map fun oc => .gassign oc.tok
 def declsOf (o : Out) : List Ans :=
   (o.decls.filter fun d => d.kind != .varargParam && Core.NameFilter.keep d.name).map fun d => .decl d.tok (d.visibleSameName.map (·.1))
 
 /-- everything the resolver answers: reads and declarations -/
-def log (o : Out) : List Ans := readsOf o ++ declsOf o
+def log (o : Out) : List Ans := readsOf o ++ declsOf o ++ assignsOf o
 
 variable (a : Ans)
 
@@ -42,33 +53,49 @@ theorem log_occ (o : Out) (c : Ctx) (env : Env) (t : Tok) (k : OccKind) (hk : k 
   have : readsOf (o.occ c env t k) = readsOf o ++ sRead c.inFunction env t := by
     unfold readsOf Out.occ sRead
     simp only [List.filter_append, List.map_append, List.filter_cons, List.filter_nil, hc]
-    by_cases h1 : t.text = "..." <;> cases h2 : c.inFunction <;> simp [h1, look]
+    by_cases h3 : Core.NameFilter.read t.text = true <;> by_cases h1 : t.text = "..." <;> cases h2 : c.inFunction <;>
+      simp_all [look]
   have hd : declsOf (o.occ c env t k) = declsOf o := rfl
+  have ha : assignsOf (o.occ c env t k) = assignsOf o := by
+    unfold assignsOf Out.occ
+    have : assignsGlobal { tok := t.idx, name := t.text, kind := k, binding := env.lookup t.text, inFunction := c.inFunction } = false := by
+      cases k <;> simp_all [assignsGlobal]
+    simp [List.filter_append, this]
   unfold log
-  rw [this, hd]
+  rw [this, hd, ha]
   simp only [List.count_append]; omega
 
 theorem log_occ_target (o : Out) (c : Ctx) (env : Env) (t : Tok) :
-    log (o.occ c env t .target) = log o := by
-  have : readsOf (o.occ c env t .target) = readsOf o := by
+    (log (o.occ c env t .target)).count a = (log o).count a + (sAssign env t).count a := by
+  have h1 : readsOf (o.occ c env t .target) = readsOf o := by
     unfold readsOf Out.occ
     simp [counted]
-  unfold log; rw [this]; rfl
+  have hd : declsOf (o.occ c env t .target) = declsOf o := rfl
+  have ha : assignsOf (o.occ c env t .target) = assignsOf o ++ sAssign env t := by
+    unfold assignsOf Out.occ sAssign
+    simp only [List.filter_append, List.map_append, List.filter_cons, List.filter_nil]
+    have hl : (look env t.text).isNone = (env.lookup t.text).isNone := by simp [look]
+    by_cases h3 : Core.NameFilter.assign t.text = true <;> cases h4 : env.lookup t.text <;>
+      simp [assignsGlobal, h3, h4, hl]
+  unfold log
+  rw [h1, hd, ha]
+  simp only [List.count_append]; omega
 
 theorem log_congr {o o' : Out} (h : o'.occs = o.occs) (h2 : o'.decls = o.decls) : log o' = log o := by
-  unfold log readsOf declsOf; rw [h, h2]
+  unfold log readsOf declsOf assignsOf; rw [h, h2]
 
 theorem log_declare (o : Out) (env : Env) (t : Tok) (name : String) (k : DeclKind) (acc : List Nat)
     (hk : k ≠ .varargParam) :
     (log (declare o env t name k acc).1).count a = (log o).count a + (sDecl env t name).count a := by
   have h1 : readsOf (declare o env t name k acc).1 = readsOf o := rfl
+  have h3 : assignsOf (declare o env t name k acc).1 = assignsOf o := rfl
   have h2 : declsOf (declare o env t name k acc).1 = declsOf o ++ sDecl env t name := by
     unfold declsOf declare sDecl
     simp only [List.filter_append, List.map_append, List.filter_cons, List.filter_nil]
     have : (k != DeclKind.varargParam) = true := by cases k <;> simp_all
     by_cases hkeep : Core.NameFilter.keep name = true <;> simp [this, look, hkeep]
   unfold log
-  rw [h1, h2]; simp only [List.count_append]; omega
+  rw [h1, h2, h3]; simp only [List.count_append]; omega
 
 theorem log_declare' (o o' : Out) (env : Env) (t : Tok) (name : String) (k : DeclKind) (acc : List Nat)
     (hk : k ≠ .varargParam) (h1 : o'.occs = o.occs) (h2 : o'.decls = o.decls) :
@@ -125,7 +152,7 @@ def tV (inF : Bool) (env : Env) : VarList → List Ans
   | .nil => []
   | .cons v rest =>
     (match v with
-      | .name _ => []
+      | .name t => sAssign env t
       | .expr _ _ _ => eV inF env v) ++ tV inF env rest
 
 theorem sTargets_count (a : Ans) (inF : Bool) (env : Env) (vars : VarList) (es : ExprList) :
@@ -138,7 +165,7 @@ theorem sTargets_count (a : Ans) (inF : Bool) (env : Env) (vars : VarList) (es :
       have ih := sTargets_count a inF env rest .nil
       cases v with
       | name n =>
-        show (([] : List Ans) ++ [] ++ sTargets inF env rest .nil).count a = ([] : List Ans).count a + ([] ++ tV inF env rest).count a
+        show (([] : List Ans) ++ sAssign env n ++ sTargets inF env rest .nil).count a = ([] : List Ans).count a + (sAssign env n ++ tV inF env rest).count a
         simp only [List.count_append, ih]; simp [eEs]
       | expr vsp p ss =>
         show (([] : List Ans) ++ eV inF env (.expr vsp p ss) ++ sTargets inF env rest .nil).count a =
@@ -148,9 +175,9 @@ theorem sTargets_count (a : Ans) (inF : Bool) (env : Env) (vars : VarList) (es :
       have ih := sTargets_count a inF env rest es'
       cases v with
       | name n =>
-        show (eE inF env e ++ [] ++ sTargets inF env rest es').count a =
-          (eE inF env e ++ eEs inF env es').count a + (([] : List Ans) ++ tV inF env rest).count a
-        simp only [List.count_append, ih]; simp; omega
+        show (eE inF env e ++ sAssign env n ++ sTargets inF env rest es').count a =
+          (eE inF env e ++ eEs inF env es').count a + (sAssign env n ++ tV inF env rest).count a
+        simp only [List.count_append, ih]; omega
       | expr vsp p ss =>
         show (eE inF env e ++ eV inF env (.expr vsp p ss) ++ sTargets inF env rest es').count a =
           (eE inF env e ++ eEs inF env es').count a + (eV inF env (.expr vsp p ss) ++ tV inF env rest).count a
@@ -353,12 +380,12 @@ theorem rTargets_count (vars : VarList) (o : Out) (c : Ctx) (env : Env) :
     cases v with
     | name t =>
       have hr : ∀ o' : Out, (o'.occs = (o.occ c env t .target).occs ∧ o'.decls = (o.occ c env t .target).decls) → (log (rTargets o' c env rest)).count a =
-          (log o).count a + (tV c.inFunction env rest).count a + (dVs c.inFunction env rest).count a := by
+          (log o).count a + ((sAssign env t).count a + (tV c.inFunction env rest).count a) + (dVs c.inFunction env rest).count a := by
         intro o' ho
-        rw [rTargets_count rest, log_congr ho.1 ho.2, log_occ_target]
+        rw [rTargets_count rest, log_congr ho.1 ho.2, log_occ_target]; omega
       show (log (rTargets (if (env.lookup t.text).isNone then _ else _) c env rest)).count a = (log o).count a +
-        (([] : List Ans) ++ tV c.inFunction env rest).count a + (([] : List Ans) ++ dVs c.inFunction env rest).count a
-      simp only [List.nil_append]
+        (sAssign env t ++ tV c.inFunction env rest).count a + (([] : List Ans) ++ dVs c.inFunction env rest).count a
+      simp only [List.nil_append, List.count_append]
       split
       · exact hr _ ⟨rfl, rfl⟩
       · exact hr _ ⟨rfl, rfl⟩
@@ -476,21 +503,21 @@ theorem rStmt_count (s : Stmt) (o : Out) (c : Ctx) (env : Env) :
       refine ⟨?_, rfl⟩
       show (log (rBody (if (!more.isEmpty || method.isSome) = true then o.occ c env base .indexedTarget
           else if (env.lookup base.text).isNone = true then _ else o.occ c env base .target) c env method body)).count a =
-        (log o).count a + ((if (!more.isEmpty || method.isSome) = true then sRead c.inFunction env base else []) ++
+        (log o).count a + ((if (!more.isEmpty || method.isSome) = true then sRead c.inFunction env base else sAssign env base) ++
           sBody env method body).count a
       rw [rBody_count body]
       cases hl : (!more.isEmpty || method.isSome)
       · simp only [Bool.false_eq_true, if_false]
-        have hr : log (if (env.lookup base.text).isNone = true then
+        have hr : (log (if (env.lookup base.text).isNone = true then
             { o.occ c env base .target with
               anyAssigned := base.text :: (o.occ c env base .target).anyAssigned,
               topAssigned := if c.depth = 0 then base.text :: (o.occ c env base .target).topAssigned
                 else (o.occ c env base .target).topAssigned }
-          else o.occ c env base .target) = log o := by
+          else o.occ c env base .target)).count a = (log o).count a + (sAssign env base).count a := by
           split
-          · exact (log_congr rfl rfl).trans (log_occ_target o c env base)
-          · exact log_occ_target o c env base
-        rw [hr]; simp
+          · exact (congrArg (List.count a) (log_congr rfl rfl)).trans (log_occ_target a o c env base)
+          · exact log_occ_target a o c env base
+        rw [hr]; simp only [List.count_append]; omega
       · simp only [if_true]
         rw [log_occ a _ _ _ _ _ (by simp)]; simp only [List.count_append]; omega
   | localFunc _ name body =>
@@ -506,17 +533,32 @@ end
 /-- everything the resolver answers about the whole chunk, as a multiset -/
 theorem resolve_count (a : Ans) (b : Block) : (log (resolve b)).count a = (chunk b).count a := by
   have := (rBlock_count a b {} { inFunction := false, depth := 0 } []).1
-  simpa [resolve, chunk, log, readsOf, declsOf] using this
+  simpa [resolve, chunk, log, readsOf, declsOf, assignsOf] using this
 
 theorem resolve_perm (b : Block) : (log (resolve b)).Perm (chunk b) :=
   List.perm_iff_count.mpr fun a => resolve_count a b
 
 /-! ### projections of the log -/
 
+theorem filterMap_none {α β : Type} (l : List α) : l.filterMap (fun _ => (none : Option β)) = [] := by
+  induction l with
+  | nil => rfl
+  | cons _ _ ih => simp [List.filterMap_cons, ih]
+
 theorem log_reads (o : Out) : (log o).filterMap Core.Ans.readOf = reads o := by
-  simp [log, readsOf, declsOf, reads, List.filterMap_append, List.filterMap_map, Core.Ans.readOf, Function.comp_def]
+  simp [log, readsOf, declsOf, assignsOf, reads, List.filterMap_append, List.filterMap_map, Core.Ans.readOf, Function.comp_def, filterMap_none]
 
 theorem log_shadows (o : Out) : (log o).filterMap Core.Ans.declOf = shadows o := by
-  simp [log, readsOf, declsOf, shadows, List.filterMap_append, List.filterMap_map, Core.Ans.declOf, Function.comp_def]
+  simp [log, readsOf, declsOf, assignsOf, shadows, List.filterMap_append, List.filterMap_map, Core.Ans.declOf, Function.comp_def, filterMap_none]
+
+theorem log_globalAssigns (o : Out) : (log o).filterMap Core.Ans.assignOf = globalAssigns o := by
+  simp [log, readsOf, declsOf, assignsOf, globalAssigns, List.filterMap_append, List.filterMap_map, Core.Ans.assignOf, Function.comp_def, filterMap_none]
+
+theorem mem_globalAssigns (o : Out) (t : Nat) :
+    t ∈ globalAssigns o ↔ ∃ oc ∈ o.occs, assignsGlobal oc = true ∧ Core.NameFilter.assign oc.name = true ∧ oc.tok = t := by
+  simp only [globalAssigns, List.mem_map, List.mem_filter, Bool.and_eq_true]
+  constructor
+  · rintro ⟨oc, ⟨h1, h2, h3⟩, h4⟩; exact ⟨oc, h1, h2, h3, h4⟩
+  · rintro ⟨oc, h1, h2, h3, h4⟩; exact ⟨oc, ⟨h1, h2, h3⟩, h4⟩
 
 end Selene.Scope.SpecProof
